@@ -362,6 +362,7 @@ class Reach:
     def __init__(self, line_funcs=()):
         self.calls = collections.Counter()
         self.lines = collections.defaultdict(set)
+        self.executable = collections.defaultdict(set)
         self.line_funcs = set(line_funcs)
         self._names = {}
         self.active = False
@@ -393,6 +394,7 @@ class Reach:
             if n.split(':', 1)[1] in self.line_funcs or n in self.line_funcs:
                 if code not in self._line_enabled:
                     self._line_enabled.add(code)
+                    self.executable[n].update(l for _, _, l in code.co_lines() if l is not None and l != code.co_firstlineno)
                     mon.set_local_events(self.TOOL, code, E.LINE)
 
         def on_line(code, line):
@@ -411,7 +413,8 @@ class Reach:
             self.active = False
 
     def summary(self):
-        return {'calls': dict(self.calls), 'lines': {k: sorted(v) for k, v in self.lines.items()}}
+        return {'calls': dict(self.calls), 'lines': {k: sorted(v) for k, v in self.lines.items()},
+                'executable': {k: sorted(v) for k, v in self.executable.items()}}
 
 
 def reach_counts(names):
